@@ -78,7 +78,7 @@ check(
 check(
     "C14",
     "other",
-    "bounded symbolic verification of position normalisation only: the real Errors.report clamps and the location prefix rendered by Errors.format_messages_default are executed for every (line, column, end_line, end_column) incl. None/-1; obligations: the end position handed on and printed is never before the start, the printed column is 1-based and >= 1. Of the parser-equivalence half only the part that is mypy's own Python code is covered: BuildManager.parse_all (native-parser batches) must deserialise every file under its own path and the options that include its inline configuration (kernel shared with C17/K5; replay = native vs default parser runs). (K6) generated programs - construct snippets with position probes, module heads with ignore comments in every position, invalid texts; the solver chooses the program - are built with the default and with the native parser: identical diagnostics incl. columns and end positions, and a blocking error from one exactly when from the other. Equivalence on all other source files and 'line exists / column within the line' in general are not claimed.",
+    "bounded symbolic verification of position normalisation only: the real Errors.report clamps and the location prefix rendered by Errors.format_messages_default are executed for every (line, column, end_line, end_column) incl. None/-1; obligations: the end position handed on and printed is never before the start, the printed column is 1-based and >= 1. Of the parser-equivalence half only the part that is mypy's own Python code is covered: BuildManager.parse_all (native-parser batches) must deserialise every file under its own path and the options that include its inline configuration (kernel shared with C17/K5; replay = native vs default parser runs). (K6) generated programs - construct snippets with position probes, module heads with ignore comments in every position, invalid texts; the solver chooses the program - are built with the default and with the native parser: identical diagnostics incl. columns and end positions, and a blocking error from one exactly when from the other. Equivalence on all other source files and 'line exists / column within the line' in general are not claimed. (K3) nodes.Context.set_line with every component symbolic (any integer incl. 0, or omitted): an explicit component is stored, an omitted one keeps the target's.",
     "trusted: z3; stub Errors self without scope/watchers; --pretty marker arithmetic only when the K3 section is present in evidence",
     "symbolic execution of real Python source with z3 (decision-replay)",
     "DESIGN.md 4/C14",
@@ -87,7 +87,7 @@ check(
 check(
     "C15",
     "other",
-    "bounded (full 64-bit width) SMT verification of the C fast paths of mypyc's runtime: clang -O1 LLVM IR of the real CPy.h / int_ops.c is regenerated on every run and translated to z3 (bit-vector domain; integer domain with axiomatised truncating division for multiply/divide/remainder). For all operand words: whenever a fast path answers, operands and result are short tagged ints and the value is exactly Python's (+ - * // % & | ^ << >> neg invert, six comparisons, range/overflow predicates, boxing, i64/i32/i16 // and %), error sentinel iff Python raises, and every nsw/shift/division precondition on the way holds (no UB). (K2) the lowered mypyc IR of ~215 one-operation functions (every operator x int/i64/i32/i16/u8, literal operands at representation boundaries, conversions) is validated against Python semantics for all argument values, incl. error exits taken without an exception set. Counterexamples are replayed by compiling a one-operation module with mypyc and comparing with the interpreter.",
+    "bounded (full 64-bit width) SMT verification of the C fast paths of mypyc's runtime: clang -O1 LLVM IR of the real CPy.h / int_ops.c is regenerated on every run and translated to z3 (bit-vector domain; integer domain with axiomatised truncating division for multiply/divide/remainder). For all operand words: whenever a fast path answers, operands and result are short tagged ints and the value is exactly Python's (+ - * // % & | ^ << >> neg invert, six comparisons, range/overflow predicates, boxing, i64/i32/i16 // and %), error sentinel iff Python raises, and every nsw/shift/division precondition on the way holds (no UB). (K2) the lowered mypyc IR of ~215 one-operation functions (every operator x int/i64/i32/i16/u8, literal operands at representation boundaries, conversions) is validated against Python semantics for all argument values, incl. error exits taken without an exception set. Counterexamples are replayed by compiling a one-operation module with mypyc and comparing with the interpreter. (K3) the native float floor division of float_ops.c (clang -O2 IR) against a transcription of CPython's float_divmod over every pair of IEEE doubles: first with add/sub/floor/fmod/division as uninterpreted functions shared by both sides (comparisons interpreted), then in z3 Float64; a refutation is realised at divisor 1.0 and replayed on a real mypyc build.",
     "trusted: z3; clang -O1 IR faithful to the C source; slow paths through PyLong are uninterpreted stubs; canonical-form invariant of boxed ints; floor-division/modulo characterised by the standard quotient-remainder lemma; float kernels and CPyLong_As* outside",
     "translation of compiler IR (LLVM) to SMT, all inputs at full width; z3",
     "DESIGN.md 4/C15",
